@@ -85,7 +85,7 @@ package key_certificate
 //@   ensures @C08 fresh(key_certificate.SpkType) && fresh(key_certificate.CpkType) && fresh(certificate.CertPayload(&key_certificate.Certificate)) && fresh(certificate.CertKind(&key_certificate.Certificate)) && fresh(certificate.CertLenBytes(&key_certificate.Certificate)) && disjoint(certificate.CertKind(&key_certificate.Certificate), certificate.CertLenBytes(&key_certificate.Certificate), certificate.CertPayload(&key_certificate.Certificate))
 //@   ensures @C01 @C03 (err == nil) == (len(bytes) >= 3 && u16(bytes[1:3]) <= len(bytes)-3 && bytes[0] == 5 && u16(bytes[1:3]) >= 4)
 //@   ensures @C03 err == nil ==> suffix(remainder, bytes, 3+u16(bytes[1:3]))
-//@   ensures @C01 err == nil ==> KeyCertInv(key_certificate) && seqeq(certificate.CertKind(&key_certificate.Certificate), bytes[0:1]) && seqeq(certificate.CertLenBytes(&key_certificate.Certificate), bytes[1:3]) && seqeq(certificate.CertPayload(&key_certificate.Certificate), bytes[3:])
+//@   ensures @C01 @C18 err == nil ==> KeyCertInv(key_certificate) && seqeq(certificate.CertKind(&key_certificate.Certificate), bytes[0:1]) && seqeq(certificate.CertLenBytes(&key_certificate.Certificate), bytes[1:3]) && seqeq(certificate.CertPayload(&key_certificate.Certificate), bytes[3:])
 //@   ensures @C01 @C10 err == nil ==> certificate.CertType(&key_certificate.Certificate) == 5
 //@   ensures @C01 @C10 err == nil ==> SigType(key_certificate) == u16(bytes[3:5])
 //@   ensures @C01 @C10 err == nil ==> CryptoType(key_certificate) == u16(bytes[5:7])
